@@ -192,6 +192,18 @@ impl Scenario {
             }
         }
         let coins = melstf::CoinMapping::new(u.verif_coins());
+        // signature evaluations of every signature slot against every wallet key, computed directly
+        // (independently of how the executor lays the transaction out on its heap)
+        for t in txs {
+            let m = t.hash_nosigs().0 .0.to_vec();
+            for sg in t.sigs.iter().take(8) {
+                if sg.len() > 64 { continue; }
+                for pk in self.keys.pk.clone().iter() {
+                    let key = (pk.0.to_vec(), m.clone(), sg.to_vec());
+                    if !self.tables.sigs.iter().any(|(k, _)| *k == key) { let ok = pk.verify(&m, sg); self.tables.sigs.push((key, ok)); }
+                }
+            }
+        }
         for t in txs {
             let scripts = t.covenants_as_map();
             for (idx, inp) in t.inputs.iter().enumerate() {
@@ -445,9 +457,52 @@ impl Scenario {
             if smt.root_hash() != hd.transactions_hash { bad.push("transactions root".into()); }
             for t in txs.iter().take(10) { let (v, p) = smt.get_with_proof(&t.hash_nosigs()); if v.as_ref() != Some(t) || !p.verify(hd.transactions_hash.0, tmelcrypt::hash_single(&stdcode::serialize(&t.hash_nosigs()).unwrap()).0, &t.stdcode()) { bad.push("transaction membership proof".into()); break; } }
         }
-        if HashVal(s.raw_stakes().pre_tip911().root_hash()) != hd.stakes_hash { bad.push("stakes root".into()); }
+        // stakes commitment: recomputed from the contents alone (not through the state's own StakeSet object)
+        {
+            let db3 = Database::new(InMemoryCas::default());
+            let mut t3 = db3.get_tree([0u8; 32]).unwrap();
+            let mut ents: Vec<(TxHash, StakeDoc)> = s.raw_stakes().iter().map(|(k, v)| (*k, v.clone())).collect();
+            ents.sort_by_key(|(k, _)| k.0 .0);
+            for (k, v) in &ents { t3.insert(k.stdcode().hash().0, &v.stdcode()); }
+            if HashVal(t3.root_hash()) != hd.stakes_hash { bad.push("stakes root is not the root of the stake contents".into()); }
+            if HashVal(s.raw_stakes().pre_tip911().root_hash()) != hd.stakes_hash { bad.push("stakes root".into()); }
+            if HashVal(tip911_stakeset::StakeSet::new(ents.iter().cloned()).pre_tip911().root_hash()) != hd.stakes_hash { bad.push("stakes root differs from that of an equal, freshly built stake set".into()); }
+            self.bump(&format!("c07_stake_sets_of_{}", ents.len().min(4)));
+        }
         self.bump("c07_states_checked");
         for b in bad { self.viol("C07", b); }
+    }
+
+    /// the sealed state s0 re-labelled as the state of block height h (with a fictitious parent header in its history)
+    fn relabel(&mut self, s0: &SealedState<InMemoryCas>, h: u64) -> SealedState<InMemoryCas> {
+        let mut blk = s0.to_block();
+        blk.header.height = BlockHeight(h);
+        if h > 0 {
+            self.dict.height(h - 1);
+            let mut parent = s0.header();
+            parent.height = BlockHeight(h - 1);
+            let mut hist = melstf::SmtMapping::<InMemoryCas, BlockHeight, Header>::new(self.db.get_tree(Default::default()).unwrap());
+            hist.insert(BlockHeight(h - 1), parent);
+            blk.header.history_hash = hist.root_hash();
+        }
+        SealedState::from_block(&blk, &s0.raw_stakes(), &self.db)
+    }
+
+    /// start the history at block height h: the sealed genesis is re-labelled through to_block / from_block
+    /// (only before the first recorded step); the scenario's initial state is that sealed state
+    pub fn jump_to_height(&mut self, h: u64) {
+        assert!(self.steps.is_empty());
+        let u = match &self.mode { Mode::U(u) => u.clone(), _ => panic!("jump on sealed") };
+        let mut s0 = u.seal(None);
+        // a mainnet state above the TIP-906 height has per-covenant counts: pass through the activation block first
+        if s0.verif_inner().verif_network() == NetID::Mainnet && h >= 830000 {
+            let r0 = self.relabel(&s0, 829_999);
+            s0 = r0.next_unsealed().seal(None);
+        }
+        for k in 0..10 { self.dict.height(h + k); }
+        let restored = self.relabel(&s0, h);
+        self.mode = Mode::S(restored);
+        let d = self.dump_now(); self.init = self.dump_str(&d);
     }
 
     pub fn op_next(&mut self) {
@@ -1467,6 +1522,39 @@ pub fn directed(r: &mut Rng) -> Vec<Scenario> {
         }
         out.push(sc);
     }
+    // a pool whose left side was deposited as zero records no liquidity and hands out a zero-valued token;
+    // withdrawing that token must be a no-op
+    {
+        let mut sc = base("d_zero_liq_withdraw", r, NetID::Custom02, 1000);
+        let at = sc.at();
+        let m = sc.coin_of(Denom::Mel, 1 << 40).unwrap();
+        let t0 = sc.mk(r, TxKind::Normal, &[m], vec![sc.cd(at, 5000, Denom::NewCustom)], vec![]);
+        let tok = Denom::Custom(t0.hash_nosigs());
+        sc.op_batch(&[t0.clone()]);
+        sc.block_end(None);
+        let key = PoolKey::new(Denom::Mel, tok);
+        sc.dict.pool(key);
+        let liq = key.liq_token_denom();
+        let m = sc.coin_of(Denom::Mel, 1 << 40).unwrap();
+        let c = (CoinID::new(t0.hash_nosigs(), 0), CoinDataHeight { coin_data: sc.cd(at, 5000, tok), height: BlockHeight(0) });
+        // left side zero, right side positive (whichever denomination is left)
+        let (l, rr, rest) = if key.left() == Denom::Mel { (sc.cd(at, 0, Denom::Mel), sc.cd(at, 5000, tok), None) } else { (sc.cd(at, 0, tok), sc.cd(at, 1000, Denom::Mel), Some(sc.cd(at, 5000, tok))) };
+        let mut outs = vec![l, rr]; if let Some(x) = rest { outs.push(x); }
+        let dep = sc.mk(r, TxKind::LiqDeposit, &[m, c], outs, key.to_bytes().to_vec());
+        sc.op_batch(&[dep.clone()]);
+        if sc.block_end(None) {
+            let zero = (CoinID::new(dep.hash_nosigs(), 0), CoinDataHeight { coin_data: sc.cd(at, 0, liq), height: BlockHeight(1) });
+            let m = sc.coin_of(Denom::Mel, 1 << 40).unwrap();
+            let mut t = Transaction::new(TxKind::LiqWithdraw);
+            t.outputs = vec![sc.cd(at, 0, liq)];
+            t.data = key.to_bytes();
+            let mut t = sc.finish_tx(r, t, &[m, zero], 0, 0);
+            if t.outputs.len() > 1 { let ch = t.outputs.pop().unwrap(); t.fee = CoinValue(t.fee.0 + ch.value.0); }
+            sc.op_batch(&[t]);
+            sc.block_end(None);
+        }
+        out.push(sc);
+    }
     // ERG minting with real proofs: a fast mint raises the recorded speed, the next mint is bounded by it
     {
         let mut sc = Scenario::new("d_doscmint", r, NetID::Custom02, 100, 1 << 20);
@@ -1694,6 +1782,64 @@ pub fn directed(r: &mut Rng) -> Vec<Scenario> {
         sc.op_apply_block(&[], a, 14, r);
         sc.op_apply_block(&[], a, 13, r);
         sc.op_apply_block(&[], a, 0, r);
+        out.push(sc);
+    }
+    // histories that cross a TIP activation height (every scenario above starts at height 0, far from them)
+    for (name, net, h) in [("d_tip_testnet_500", NetID::Testnet, 498u64), ("d_tip901_mainnet", NetID::Mainnet, 42698), ("d_tip902_mainnet", NetID::Mainnet, 179998),
+                           ("d_tip906_mainnet", NetID::Mainnet, 829998), ("d_tip909_mainnet", NetID::Mainnet, 949998), ("d_tip909a_mainnet", NetID::Mainnet, 1047998)] {
+        let mut sc = Scenario::new(name, r, net, 100, 1 << 30);
+        sc.fixed_change = Some(sc.at());
+        sc.jump_to_height(h);
+        for b in 0..4 {
+            sc.op_next();
+            let w = sc.wallet();
+            if let Some(t) = sc.gen_normal(r, &w, &HashSet::new()) { sc.op_batch(&[t]); }
+            let d = [-128i8, -128, 127, -64][b];
+            let a = Some(ProposerAction { fee_multiplier_delta: d, reward_dest: sc.at() });
+            if sc.op_seal(a) != 0 { break; }
+            if b == 2 { sc.op_restart(); }
+        }
+        out.push(sc);
+    }
+    // a staking-epoch boundary with a lapsing stake
+    {
+        let mut sc = Scenario::new("d_epoch_boundary", r, NetID::Custom02, 1000, 1 << 20);
+        sc.fixed_change = Some(sc.at());
+        let db = Database::new(InMemoryCas::default());
+        let mut stakes = BTreeMap::new();
+        stakes.insert(TxHash(tmelcrypt::hash_single(b"lapsing")), StakeDoc { pubkey: sc.keys.pk[0], e_start: 0, e_post_end: 0, syms_staked: CoinValue(7) });
+        stakes.insert(TxHash(tmelcrypt::hash_single(b"staying")), StakeDoc { pubkey: sc.keys.pk[1], e_start: 0, e_post_end: 5, syms_staked: CoinValue(9) });
+        let cfg = GenesisConfig { network: NetID::Custom02, init_coindata: CoinData { covhash: sc.at(), value: CoinValue(1 << 50), denom: Denom::Mel, additional_data: Bytes::new() }, stakes, init_fee_pool: CoinValue(1 << 20), init_fee_multiplier: 1000 };
+        sc.mode = Mode::U(cfg.realize(&db));
+        sc.db = db;
+        sc.jump_to_height(STAKE_EPOCH - 2);
+        let a = Some(ProposerAction { fee_multiplier_delta: 1, reward_dest: sc.at() });
+        for _ in 0..3 {
+            sc.op_next();
+            if sc.op_seal(a) != 0 { break; }
+            sc.op_confirm(&[(0, true), (1, true)]);
+            sc.op_restart();
+        }
+        out.push(sc);
+    }
+    // a transaction with a forged signature first, then the same transaction with the genuine signatures
+    {
+        let mut sc = base("d_forged_then_genuine", r, NetID::Custom02, 1000);
+        let at = sc.at();
+        let s0 = sc.addr_of(|k| matches!(k, CovKind::SigNew(0)));
+        let s1 = sc.addr_of(|k| matches!(k, CovKind::SigNew(1)));
+        let mut f = Transaction::new(TxKind::Faucet);
+        f.outputs = vec![sc.cd(s0, 1 << 40, Denom::Mel), sc.cd(s1, 1 << 40, Denom::Mel)];
+        let f = sc.finish_tx(r, f, &[], 0, 0);
+        sc.op_batch(&[f.clone()]);
+        sc.block_end(None);
+        let coin = |i: u8| (CoinID::new(f.hash_nosigs(), i), CoinDataHeight { coin_data: f.outputs[i as usize].clone(), height: BlockHeight(0) });
+        let good = sc.mk(r, TxKind::Normal, &[coin(0), coin(1)], vec![sc.cd(at, 1 << 40, Denom::Mel)], vec![]);
+        let mut forged = good.clone();
+        if forged.sigs.len() >= 2 { forged.sigs[1] = Bytes::from(vec![0u8; 64]); }
+        sc.op_batch(&[forged]);
+        sc.op_batch(&[good]);
+        sc.block_end(None);
         out.push(sc);
     }
     // F25: a pool created with an empty side, then a second deposit
